@@ -113,8 +113,27 @@ impl Write for AsyncWritableFile {
         cx: &mut Context<'_>,
     ) -> Poll<Result<(), async_std::io::Error>> {
         let this = self.get_mut();
-        let file = Pin::new(&mut this.content);
-        file.poll_flush(cx)
+        // Publish the bytes written so far, as the synchronous MemoryFS does on flush
+        let mut handle = match this.fs.try_write() {
+            Some(handle) => handle,
+            None => {
+                cx.waker().wake_by_ref();
+                return Poll::Pending;
+            }
+        };
+        match handle.files.get(&this.destination) {
+            Some(file) if file.file_type == VfsFileType::File => {}
+            // The file was removed (or replaced by a directory) while this handle was open
+            _ => return Poll::Ready(Ok(())),
+        }
+        handle.files.insert(
+            this.destination.clone(),
+            AsyncMemoryFile {
+                file_type: VfsFileType::File,
+                content: Arc::new(this.content.get_ref().clone()),
+            },
+        );
+        Poll::Ready(Ok(()))
     }
     fn poll_close(
         self: Pin<&mut Self>,
